@@ -155,7 +155,7 @@ def step (st : St) (fs : List String) : St × String :=
     | _, _ => bad
   | ["clear"] =>
     match st.mgr with
-    | some m => ({ mgr := some m.clear, spec := { st.spec with links := [], conds := [], params := [] } }, ms "ok" "ok")
+    | some m => ({ mgr := some m.clear, spec := { st.spec with links := [], params := [] } }, ms "ok" "ok")
     | none => bad
   | "add" :: u :: r :: dom =>
     match st.mgr, decStr u, decStr r, dom.mapM decStr with
